@@ -31,7 +31,7 @@ def run(ctx):
         pc.family_overflow(False) + pc.family_retry0()
     if quick:
         base = base[:260]
-    cps = pc.close_points(base, 4 if quick else 1, rnd)
+    cps = pc.close_points(base, 4 if quick else 1, rnd) + pc.family_create_unreachable()
     pst, ptr, pdet = pc.model_check(ctx, ["MCProducer.small.cfg", "MCProducer.idem.cfg"] if quick else ["MCProducer.quick.cfg", "MCProducer.idem.cfg"])
     pviols, pstats, ptrace, pcases = pc.run_scenarios(ctx, cps, name="c12prod")
     # ---- consumer crash points
